@@ -684,6 +684,24 @@ def answer (stream : String) (f : Array String) : Ans :=
       let ctx := parseCtx (g 5)
       -- field 6 = "t": the operator of the context is written WITHOUT blanks around it (`prog 'a'|q`, `prog "b";q`): same
       -- expected observable; no theorem is claimed for this spelling (guard 0), the spec is still the oracle
+      -- field 6 = "i" / "o" / "d" / "e": the command also carries a REAL unquoted `< inp`, `> out`, `2>&1` after the arguments or an
+      -- assignment `X=1` in front of the program word (quoted arguments next to another feature of the line); same arguments expected
+      if g 6 = "i" ∨ g 6 = "o" ∨ g 6 = "d" ∨ g 6 = "e" then
+        let base := C01.renderCmd p args
+        let rendered : Str := match g 6 with
+          | "i" => base ++ " < inp".toList | "o" => base ++ " > out".toList | "d" => base ++ " 2>&1".toList | _ => "X=1 ".toList ++ base
+        if rendered ≠ line ∨ ctx ≠ .alone then { a with s := "RENDER-MISMATCH" } else
+        -- with text after the arguments the last argument is no longer the last word of the line: it is classified as a middle one
+        let cls := if g 6 = "e" then C01.classify es.env p args .alone
+                   else C01.classify es.env p (args ++ [(C01.Style.sq, ['z'])]) .alone
+        let argv := C01.expectedArgv p args
+        let obs : C01.Obs := match g 6 with
+          | "i" => { stages := [(argv, [], some (['<'], "inp".toList))], envs := [], background := false }
+          | "o" => { stages := [(argv, [(['1'], ['>'], "out".toList)], none)], envs := [], background := false }
+          | "d" => { stages := [(argv, [(['2'], ['>'], "&1".toList)], none)], envs := [], background := false }
+          | _ => { stages := [(argv, [], none)], envs := [("X".toList, "1".toList)], background := false }
+        { a with s := if cls.startsWith "outside-statement" then "-" else obsOut obs, guard := "0",
+                 cls := if cls = "esc-other" then "-" else cls } else
       let tight := g 6 = "t"
       let tightSuffix : Str := match ctx with
         | .alone => [] | .pipe => "|q".toList | .semi => ";q".toList | .and => "&&q".toList | .or => "||q".toList
@@ -819,12 +837,23 @@ def answer (stream : String) (f : Array String) : Ans :=
          | [] => A)
       | _ => A) []
     let sorted1 := (A1.toArray.qsort (fun a b => String.ofList a.1 < String.ofList b.1)).toList
-    let sq := A0.any (fun p => p.2.contains '\'')
-    let gt := A0.any (fun p => p.2.contains '>')
+    -- guard = `entryOk` of Thm/C17list.lean (theorem `C17_list_all`), re-stated here; the classes are the refuted ones
+    let ident (n : Str) : Bool := n.all isNameChar
+    let has (v : Str) (c : Char) : Bool := v.contains c
+    let clsOf (p : Str × Str) : String :=
+      let (n, v) := p
+      if v.isEmpty then "outside-statement:empty-value"
+      else if has v '\'' then "list-squote"
+      else if has v '\n' then "outside-statement:newline"
+      else if ident n then
+        (if has v '>' then "value-gt" else if has v '`' then "list-backquote" else if has v '{' then "list-brace"
+         else if has v '$' then "list-dollar" else if has v '*' then "list-glob" else "-")
+      else if v.head? = some '"' then "list-dquote-dashed" else "-"
+    let classes := A0.map clsOf
     let emp := A0.any (fun p => p.2.isEmpty)
-    let okv := !sq && !gt && !emp
+    let okv := classes.all (· = "-")
     { m := pairsOut sorted1, s := if emp then "-" else pairsOut sortedA, guard := if okv then "1" else "0",
-      cls := if okv then "-" else if sq then "list-squote" else if gt then "value-gt" else "outside-statement:empty-value" }
+      cls := (classes.find? (· ≠ "-")).getD "-" }
   | "xpargs" =>
     let args := if g 1 = "[]" then [] else ((g 1).splitOn ",").map unhex
     { m := hex (expandArgs args (unhex (g 0))) }
@@ -945,6 +974,7 @@ def answer (stream : String) (f : Array String) : Ans :=
     let touched := !wrapped.isEmpty || exitAfter.isSome
     { m := "|".intercalate (run true), s := "|".intercalate (run false),
       guard := if touched then "0" else "1", cls := if touched then "inner-builtin-state" else "-" }
+  | "alive" => { m := "returns" }   -- C05, process level: the only prediction is that the shell returns (no model of the line editor)
   | "jobs" =>
     let ops := parseJobOps (g 0)
     let (s, outs) := ops.foldl (fun (acc : Jobs.Sh × List String) op =>
